@@ -778,13 +778,7 @@ func c40(r *Run) {
 	// every scope refuses a key that is not Valid: the recording scope of the simulation grants exactly what it
 	// could record (Keys.Add checks Valid), and the declared scope grants only keys present in a map built by Add
 	if sh := r.fn(w, "C40.R2", "("+H+"/state.SimulatedKeys).Has"); sh != nil {
-		outs := returnOutcomes(sh)
-		okk := len(outs) > 0
-		for _, o := range outs {
-			if !(len(o.Vals) == 1 && term(o.Vals[0]) == "(state.Keys).Add(p0, string(p1), p2)") {
-				okk = false
-			}
-		}
+		_, okk := simulatedHasShape(sh)
 		r.check(okk, "C40.R2", "SimulatedKeys.Has:grants-only-recordable-keys", w.rel(sh.Pos()), "returns Keys.Add(key, perm)", "the simulation scope grants access to a key it cannot record (shorter than the chunk suffix): reads and removals of a malformed key succeed under simulation and the reported key set omits it")
 	}
 	un := r.fn(w, "C40.R2", nmUnits)
